@@ -3,7 +3,12 @@ use hv::common::*;
 use hv::gen;
 use harper_core::linting::{Lint, LintGroup, Linter};
 use harper_core::{remove_overlaps, Dialect, Document, FstDictionary, Span};
+use harper_core::linting::{CompoundNouns, CurrencyPlacement, HopHope, LetsConfusion, PronounContraction, Suggestion};
+use harper_core::parsers::{Markdown, PlainEnglish};
+use harper_core::{IgnoredLints, MergedDictionary, MutableDictionary, TokenKind, TokenStringExt};
+use harper_wasm::{Dialect as WD, Language, Lint as WLint, Linter as WL};
 use serde_json::{json, Value};
+use std::sync::Arc;
 
 fn mk(spans: &[(usize, usize)]) -> Vec<Lint> {
     spans
@@ -136,6 +141,334 @@ fn random_spans(r: &mut Rng) -> Vec<(usize, usize)> {
         .collect()
 }
 
+
+// ======================= phase 3: the callers of remove_overlaps =======================
+
+fn cps(t: &[char]) -> String {
+    t.iter().map(|c| (*c as u32).to_string()).collect::<Vec<_>>().join(" ")
+}
+fn sug_code(s: &Suggestion) -> (usize, Vec<char>) {
+    match s {
+        Suggestion::ReplaceWith(c) => (0, c.clone()),
+        Suggestion::InsertAfter(c) => (1, c.clone()),
+        Suggestion::Remove => (2, vec![]),
+    }
+}
+fn winner(l: &WLint) -> Lint {
+    let v: Value = serde_json::from_str(&l.to_json()).unwrap_or(Value::Null);
+    serde_json::from_value(v["inner"].clone()).unwrap_or_default()
+}
+
+pub struct WasmCtx {
+    dict: Arc<MergedDictionary>,
+    group: LintGroup,
+    wl: WL,
+}
+impl WasmCtx {
+    pub fn new() -> Self {
+        // the dictionary harper_wasm::Linter::new builds: curated + an empty user dictionary
+        let mut d = MergedDictionary::new();
+        d.add_dictionary(FstDictionary::curated());
+        d.add_dictionary(Arc::new(MutableDictionary::default()));
+        let dict = Arc::new(d);
+        let group = LintGroup::new_curated(dict.clone(), Dialect::American);
+        WasmCtx { dict, group, wl: WL::new(WD::American) }
+    }
+}
+
+/// One text through the real harper_wasm::Linter: lint, ignore some of the reported lints, lint again,
+/// then fix everything that is reported through Linter::apply_suggestion, last reported lint first.
+/// Correspondence: W lines (reported ids) and F lines (final text) against Model/C13Callers.v, whose
+/// input is the RAW lint list (harper_core LintGroup with the same dictionary, dialect and curated config).
+pub fn check_wasm(rep: &mut Report, cx: &mut WasmCtx, text: &str, markdown: bool, ignore_picks: &[usize], origin: &str) {
+    rep.eval();
+    let inp = json!({"kind": "wasm", "text": text, "markdown": markdown, "ignore": ignore_picks, "origin": origin});
+    let lang = if markdown { Language::Markdown } else { Language::Plain };
+    let src: Vec<char> = text.chars().collect();
+    let r = guarded(|| {
+        let doc = if markdown {
+            Document::new_from_vec(Arc::new(src.clone()).into(), &Markdown::default(), &cx.dict)
+        } else {
+            Document::new_from_vec(Arc::new(src.clone()).into(), &PlainEnglish, &cx.dict)
+        };
+        let raw = cx.group.lint(&doc);
+        cx.wl.clear_ignored_lints();
+        let out1 = cx.wl.lint(text.to_string(), lang);
+        let mut own = IgnoredLints::new();
+        let mut picked = 0;
+        for p in ignore_picks {
+            if out1.is_empty() {
+                break;
+            }
+            let l = &out1[p % out1.len()];
+            own.ignore_lint(&winner(l), &doc);
+            cx.wl.ignore_lint(text.to_string(), WLint::from_json(l.to_json()).unwrap());
+            picked += 1;
+        }
+        let out2 = cx.wl.lint(text.to_string(), lang);
+        let mask: Vec<bool> = raw.iter().map(|l| own.is_ignored(l, &doc)).collect();
+        // fix everything reported by the second lint, last first, through the API
+        let mut cur = text.to_string();
+        for l in out2.iter().rev() {
+            let sugs = l.suggestions();
+            if let Some(s0) = sugs.first() {
+                cur = cx.wl.apply_suggestion(cur, l, s0).unwrap_or_else(|e| format!("ERR {e}"));
+            }
+        }
+        cx.wl.clear_ignored_lints();
+        (raw, out1, out2, mask, picked, cur)
+    });
+    let (raw, out1, out2, mask, picked, fixed) = match r {
+        Ok(x) => x,
+        Err(m) => {
+            rep.count("wasm_panicked(C16's business unless the model disagrees)");
+            let _ = m;
+            return;
+        }
+    };
+    let ids_of = |out: &Vec<WLint>| -> Option<Vec<usize>> {
+        let mut used = vec![false; raw.len()];
+        let mut ids = vec![];
+        for l in out {
+            let inner = winner(l);
+            let i = (0..raw.len()).find(|i| !used[*i] && raw[*i] == inner)?;
+            used[i] = true;
+            ids.push(i);
+        }
+        Some(ids)
+    };
+    let line = |ids: &Vec<usize>| ids.iter().map(|i| i.to_string()).collect::<Vec<_>>().join(" ");
+    let items = |m: &dyn Fn(usize) -> bool| raw.iter().enumerate().map(|(i, l)| format!("{} {} {}", l.span.start, l.span.end, m(i) as u8)).collect::<Vec<_>>().join(" ");
+    let (Some(ids1), Some(ids2)) = (ids_of(&out1), ids_of(&out2)) else {
+        rep.fail("wasm_not_sublist", "Linter::lint reports a lint that is not one of the rules' lints (unaltered, used once)".into(), inp);
+        return;
+    };
+    rep.case(&format!("W 1 {}", items(&|_| false)).trim_end().to_string(), line(&ids1).trim());
+    rep.case(&format!("W {} {}", (picked == 0) as u8, items(&|i| mask[i])).trim_end().to_string(), line(&ids2).trim());
+    // F: raw items with the first suggestion of each lint (a lint without suggestions: InsertAfter "" = no edit)
+    let fitems = raw
+        .iter()
+        .enumerate()
+        .map(|(i, l)| {
+            let (k, cs) = l.suggestions.first().map(sug_code).unwrap_or((1, vec![]));
+            format!("{} {} {} {} {}", l.span.start, l.span.end, mask[i] as u8, k, cps(&cs)).trim_end().to_string()
+        })
+        .collect::<Vec<_>>()
+        .join(" | ");
+    let fixed_chars: Vec<char> = fixed.chars().collect();
+    let impl_line = if fixed.starts_with("ERR ") { "P".to_string() } else { format!("O {}", cps(&fixed_chars)).trim_end().to_string() };
+    rep.case(&format!("F {} | {} | {}", (picked == 0) as u8, cps(&src), fitems), &impl_line);
+    // ---- oracle on what the JS API reports ----
+    let sp: Vec<Span> = out2.iter().map(|l| winner(l).span).collect();
+    for i in 0..sp.len() {
+        for j in (i + 1)..sp.len() {
+            if sp[i].start.max(sp[j].start) < sp[i].end.min(sp[j].end) {
+                rep.fail("wasm_reported_overlap", format!("Linter::lint reports {:?} and {:?}, which share a character", sp[i], sp[j]), inp.clone());
+                return;
+            }
+            if sp[j].start < sp[i].start {
+                rep.fail("wasm_reported_unsorted", format!("Linter::lint reports {:?} before {:?}: list order is not text order, last-to-first fixing interferes", sp[i], sp[j]), inp.clone());
+                return;
+            }
+        }
+    }
+    for (i, m) in mask.iter().enumerate() {
+        if *m && ids2.contains(&i) {
+            rep.fail("wasm_reports_ignored", format!("raw lint {i} is ignored and still reported"), inp.clone());
+            return;
+        }
+    }
+    // fix-all through the API == independent simultaneous splice
+    let mut sim: Vec<char> = vec![];
+    let mut pos = 0usize;
+    let mut ok = true;
+    for l in &out2 {
+        let inner = winner(l);
+        if pos > inner.span.start || inner.span.end > src.len() {
+            ok = false;
+            break;
+        }
+        sim.extend(&src[pos..inner.span.start]);
+        let flagged = &src[inner.span.start..inner.span.end];
+        match inner.suggestions.first() {
+            Some(Suggestion::ReplaceWith(c)) => sim.extend(c),
+            Some(Suggestion::InsertAfter(c)) => {
+                sim.extend(flagged);
+                sim.extend(c)
+            }
+            Some(Suggestion::Remove) => {}
+            None => sim.extend(flagged),
+        }
+        pos = inner.span.end;
+    }
+    if ok {
+        sim.extend(&src[pos..]);
+    }
+    if !ok || sim != fixed_chars {
+        rep.fail("wasm_fix_all", "applying one suggestion per reported lint (Linter::apply_suggestion, last first) is not the simultaneous splice".into(), inp.clone());
+        return;
+    }
+    let dropped = raw.len() - ids1.len();
+    rep.count(&format!("wasm:raw:{}", bucket(raw.len())));
+    rep.count(&format!("wasm:dropped_by_overlap:{}", bucket(dropped)));
+    rep.count(&format!("wasm:hidden_by_ignore:{}", bucket(ids1.len() - ids2.len().min(ids1.len()))));
+    if dropped > 0 || ids2.len() < ids1.len() {
+        rep.nontrivial(&(text.to_string(), ignore_picks.to_vec(), markdown));
+    }
+}
+
+fn kind_code(k: &TokenKind) -> usize {
+    if k.is_number() {
+        0
+    } else if k.is_currency() {
+        1
+    } else if k.is_punctuation() {
+        2
+    } else if k.is_whitespace() {
+        3
+    } else {
+        4
+    }
+}
+
+/// CurrencyPlacement::lint on a text against Model/C13Callers.currency_lint (candidate generation per
+/// chunk + remove_overlaps).  The model's `wrong` predicate (correct != actual) is computed here for every
+/// (currency, number) pair of tokens at distance <= 2 with Currency::format_amount.
+pub fn check_currency(rep: &mut Report, dict: &Arc<FstDictionary>, text: &str, origin: &str) {
+    rep.eval();
+    let inp = json!({"kind": "currency", "text": text, "origin": origin});
+    let Ok(doc) = guarded(|| Document::new_plain_english(text, dict)) else {
+        rep.count("currency:doc_panicked");
+        return;
+    };
+    let mut wrongs: Vec<(usize, usize)> = vec![];
+    let mut chunks: Vec<String> = vec![];
+    for chunk in doc.iter_chunks() {
+        chunks.push(chunk.iter().map(|t| format!("{} {} {}", kind_code(&t.kind), t.span.start, t.span.end)).collect::<Vec<_>>().join(" "));
+        for i in 0..chunk.len() {
+            for j in (i + 1)..chunk.len().min(i + 3) {
+                let (a, b) = (&chunk[i], &chunk[j]);
+                let cur = if a.kind.is_currency() { &a.kind } else { &b.kind };
+                let num = if a.kind.is_number() { &a.kind } else { &b.kind };
+                let (Some(c), Some(n)) = (cur.as_punctuation().and_then(|p| p.as_currency()), num.as_number()) else { continue };
+                if a.span.start > b.span.end || b.span.end > doc.get_source().len() {
+                    continue;
+                }
+                let correct: Vec<char> = c.format_amount(n).chars().collect();
+                if correct != doc.get_source()[a.span.start..b.span.end] {
+                    wrongs.push((a.span.start, b.span.end));
+                }
+            }
+        }
+    }
+    let case_line = format!(
+        "C {} | {}",
+        wrongs.iter().map(|(s, e)| format!("{s} {e}")).collect::<Vec<_>>().join(" "),
+        chunks.join(" | ")
+    );
+    let out = guarded(|| CurrencyPlacement::default().lint(&doc));
+    let out = match out {
+        Ok(o) => o,
+        Err(m) => {
+            rep.case(&case_line, "P");
+            rep.fail("currency_panic", format!("CurrencyPlacement::lint panicked: {m}"), inp);
+            return;
+        }
+    };
+    let spans: Vec<(usize, usize)> = out.iter().map(|l| (l.span.start, l.span.end)).collect();
+    rep.case(&case_line, spans.iter().map(|(s, e)| format!("{s} {e}")).collect::<Vec<_>>().join(" ").trim());
+    check_caller_output(rep, &spans, "CurrencyPlacement", &inp);
+    rep.count(&format!("currency:lints:{}", bucket(spans.len())));
+    rep.count(&format!("currency:wrong_pairs:{}", bucket(wrongs.len())));
+    if wrongs.len() > spans.len() {
+        rep.count("currency:candidates_dropped_or_not_generated");
+        rep.nontrivial(&text.to_string());
+    }
+}
+
+/// The output of a caller that ends in remove_overlaps: pairwise disjoint and a FIXPOINT of the model's
+/// remove_overlaps (C13_idempotent) — the R line must keep every id, in order.
+fn check_caller_output(rep: &mut Report, spans: &[(usize, usize)], who: &str, inp: &Value) {
+    let mut v = mk(spans);
+    let before = v.clone();
+    let r = guarded(|| {
+        remove_overlaps(&mut v);
+        v
+    });
+    let case_line = format!("R {}", spans.iter().map(|(s, e)| format!("{s} {e}")).collect::<Vec<_>>().join(" "));
+    rep.case(&case_line, (0..spans.len()).map(|i| i.to_string()).collect::<Vec<_>>().join(" ").trim());
+    match r {
+        Ok(v) if v == before => {}
+        _ => rep.fail("caller_not_fixpoint", format!("the lints {who} returns are not left alone by remove_overlaps: it did not apply it (or applied something else)"), inp.clone()),
+    }
+    for i in 0..spans.len() {
+        for j in (i + 1)..spans.len() {
+            let (a, b) = (spans[i], spans[j]);
+            if a.0.max(b.0) < a.1.min(b.1) {
+                rep.fail("caller_overlap", format!("{who} returns {:?} and {:?}, which share a character", a, b), inp.clone());
+                return;
+            }
+        }
+    }
+}
+
+pub fn check_merged(rep: &mut Report, dict: &Arc<FstDictionary>, text: &str, origin: &str) {
+    rep.eval();
+    let inp = json!({"kind": "merged", "text": text, "origin": origin});
+    let Ok(doc) = guarded(|| Document::new_plain_english(text, dict)) else { return };
+    let mut linters: Vec<(&str, Box<dyn Linter>)> = vec![
+        ("HopHope", Box::new(HopHope::default())),
+        ("PronounContraction", Box::new(PronounContraction::default())),
+        ("CompoundNouns", Box::new(CompoundNouns::default())),
+        ("LetsConfusion", Box::new(LetsConfusion::default())),
+    ];
+    for (name, l) in linters.iter_mut() {
+        let Ok(out) = guarded(|| l.lint(&doc)) else {
+            rep.count("merged:lint_panicked(C01's business)");
+            continue;
+        };
+        let spans: Vec<(usize, usize)> = out.iter().map(|l| (l.span.start, l.span.end)).collect();
+        check_caller_output(rep, &spans, name, &inp);
+        rep.count(&format!("merged:{name}:{}", bucket(spans.len())));
+    }
+}
+
+const MONEY: &[&str] = &["5", "$", " ", "€", "10", "3.50", " ", "¢", "£", "1,000", "and", "cost", ".", ",", " ", "¥", "2", "about", "$", " "];
+fn money_text(r: &mut Rng) -> String {
+    let n = 1 + r.below(14);
+    let mut s = String::new();
+    for _ in 0..n {
+        s.push_str(r.s(MONEY));
+        if r.chance(1, 5) {
+            s.push(' ');
+        }
+    }
+    s
+}
+const MERGE_TRIGGERS: &[&str] = &[
+    "I hop to see you soon.", "We hope on the bus.", "Your the best.", "Lets go home.", "Let's us try.", "Lets us go.",
+    "The wind shield broke.", "A back pack is on the bed room floor.", "Its a note book.", "You are here and your here.",
+    "I hop you hop on a plane.", "Were going to the air port.", "Let us let's go.", "She said your welcome.",
+];
+const WASM_TRIGGERS: &[&str] = &[
+    "Ths  tet is an test.", "There is an an apple  here.", "I have 5 $ and 10$ .", "the the cat sat.Then it left",
+    "This is a a test of the the emergency system.", "Their going to there house over they're.", "An unicorn ate a apple , quickly .",
+    "i think its a alot of work ; really", "He hop to to see you  soon", "In in the the end end , it it was was fine fine .",
+];
+
+pub fn replay_any(rep: &mut Report, cxw: &mut Option<WasmCtx>, dict: &Arc<FstDictionary>, v: &Value) {
+    match v["kind"].as_str().unwrap_or("spans") {
+        "wasm" => {
+            let picks: Vec<usize> = v["ignore"].as_array().map(|a| a.iter().map(|x| x.as_u64().unwrap_or(0) as usize).collect()).unwrap_or_default();
+            let cx = cxw.get_or_insert_with(WasmCtx::new);
+            check_wasm(rep, cx, v["text"].as_str().unwrap_or(""), v["markdown"].as_bool().unwrap_or(false), &picks, "replay");
+        }
+        "currency" => check_currency(rep, dict, v["text"].as_str().unwrap_or(""), "replay"),
+        "merged" => check_merged(rep, dict, v["text"].as_str().unwrap_or(""), "replay"),
+        _ => replay_input(rep, v),
+    }
+}
+
 pub fn replay_input(rep: &mut Report, v: &Value) {
     let spans: Vec<(usize, usize)> = v["spans"]
         .as_array()
@@ -147,9 +480,11 @@ pub fn replay_input(rep: &mut Report, v: &Value) {
 
 pub fn run(a: &Args, corpus: &[Value]) {
     let mut rep = Report::new(&a.out);
-    rep.rule = "span lists: corpus, random multisets (0-40 spans, coordinate range 4..200, zero-width forced 1/12), span lists of all lints of generated documents (all rules on), malformed stream (start>end; correspondence+no-panic only); thorough adds every sequence of <=5 spans over coordinates 0..4. non-trivial = distinct well-formed list with >=2 spans of which >=1 is dropped".into();
+    rep.rule = "span lists: corpus, random multisets (0-40 spans, coordinate range 4..200, zero-width forced 1/12), span lists of all lints of generated documents (all rules on), malformed stream (start>end; correspondence+no-panic only); thorough adds every sequence of <=5 spans over coordinates 0..4. phase 3: texts through the real harper_wasm::Linter (lint, ignore 0-3 reported lints, lint again, fix all through apply_suggestion last first; W/F lines against the caller model fed with the raw LintGroup lints), money texts through CurrencyPlacement (C lines: candidate generation + overlap removal), trigger sentences through the four merge_linters! linters (output must be a fixpoint of the model). non-trivial = distinct well-formed list with >=2 spans of which >=1 is dropped".into();
+    let dict0 = FstDictionary::curated();
+    let mut cxw: Option<WasmCtx> = None;
     for c in corpus {
-        replay_input(&mut rep, c);
+        replay_any(&mut rep, &mut cxw, &dict0, c);
     }
     if a.replay.is_some() {
         rep.finish();
@@ -194,6 +529,26 @@ pub fn run(a: &Args, corpus: &[Value]) {
         if rep.dist.get("dropped:0").copied().unwrap_or(0) == before && spans.len() >= 2 {
             with_overlap += 1;
         }
+    }
+    // ---- phase 3: the callers ----
+    let cx = cxw.get_or_insert_with(WasmCtx::new);
+    for i in 0..a.scale(120, 1500) {
+        let text = match i % 4 {
+            0 => r.s(WASM_TRIGGERS).to_string(),
+            1 => format!("{} {}", r.s(WASM_TRIGGERS), money_text(&mut r)),
+            2 => format!("{} {}", r.s(MERGE_TRIGGERS), r.s(WASM_TRIGGERS)),
+            _ => gen::any_text(&mut r),
+        };
+        let picks: Vec<usize> = (0..r.below(4)).map(|_| r.below(64)).collect();
+        check_wasm(&mut rep, cx, &text, r.chance(1, 4), &picks, "wasm");
+    }
+    for i in 0..a.scale(1500, 20000) {
+        let text = if i % 8 == 7 { gen::any_text(&mut r) } else { money_text(&mut r) };
+        check_currency(&mut rep, &dict, &text, "currency");
+    }
+    for i in 0..a.scale(150, 2000) {
+        let text = if i % 3 == 2 { gen::any_text(&mut r) } else { format!("{} {}", r.s(MERGE_TRIGGERS), r.s(MERGE_TRIGGERS)) };
+        check_merged(&mut rep, &dict, &text, "merged");
     }
     rep.extra.insert("documents_linted".into(), json!(docs));
     rep.extra.insert("documents_with_overlapping_lints".into(), json!(with_overlap));
